@@ -51,6 +51,7 @@ def c01(ctx, rep):
     _gate_v6(m, rep, "C01")
     from .checks_misc import stage_state_rule
     stage_state_rule(ctx, rep, "C01", IP_STAGE_ROOTS)
+    _one_anonymizer_per_run(ctx, m, rep, "C01")  # two addresses of one run are mapped by one function (a rebuilt anonymizer draws a new salt when none was given)
 
 
 IP_STAGE_ROOTS = ["_BaseIpAnonymizer", "IpAnonymizer", "IpV6Anonymizer", "anonymize_ip_addr", "_anonymize_match"]
@@ -962,7 +963,38 @@ def _gate_content(ctx, m, rep, cl):
     f = m.method(m.v4, "should_anonymize")
     rep.analysed(f)
     ipint = ("param", f.mparams[1])
-    for path in m.A.paths(f).paths:
+    fpaths = [x for x in m.A.paths(f).paths if x.feasible()]
+    if len(fpaths) > 1 and all(x.kind == "return" and x.returned()[0] == "const" and isinstance(x.returned()[1], bool) for x in fpaths):
+        # decision form: guard clauses / an early-exit loop returning constants
+        mask_t = ("call", ("attr", SELF, "_is_mask"), (ipint,), ())
+        ipobj = ("call", ("attr", ("global", f.module.name, "ipaddress"), "ip_address"), (ipint,), ())
+        fploops = m.A.paths(f).loops
+        by_mask = by_member = plain_true = other = 0
+        for x in fpaths:
+            val = x.returned()[1]
+            atoms = [(t, pol) for t, pol in x.atoms()]
+            mask_pol = [pol for t, pol in atoms if t == mask_t]
+            inl = [t for t, pol in atoms if t[0] == "inloop" and pol]
+            rest = [(t, pol) for t, pol in atoms if t != mask_t and t[0] not in ("inloop", "loopbreak")]
+            if val is False and mask_pol == [True] and not inl and not rest:
+                by_mask += 1
+            elif val is False and mask_pol == [False] and len(inl) == 1 and len(rest) == 1 and rest[0][1] is True:
+                li = fploops.get(inl[0][1])
+                t0 = rest[0][0]
+                okm_ = li is not None and li.iter == ("attr", SELF, "_preserve_addresses") and t0[0] == "compare" and t0[1] == ("in",) and t0[2][0] == ipobj and t0[2][1] == ("loopvar", li.uid, li.iter, ())
+                by_member += okm_
+                other += (not okm_)
+            elif val is True and mask_pol == [False] and not inl and not rest:
+                plain_true += 1
+            else:
+                other += 1
+        okd = by_mask == 1 and by_member == 1 and plain_true == 1 and other == 0
+        rep.ob(cl + ".gate-shape", f.name, okd, "gate as a decision: refused for masks (%d path), refused for a member of ANY preserved network (%d), accepted otherwise (%d), other paths %d" % (by_mask, by_member, plain_true, other), where(f),
+               key=cl + ".gate-shape|should_anonymize")
+        rep.ob(cl + ".gate-mask", f.name, by_mask == 1, "the mask test is applied to the same integer", where(f), key=cl + ".gate-mask|should_anonymize")
+        rep.ob(cl + ".gate-membership", f.name, by_member == 1, "membership is tested against every preserved network (early exit on the first hit)", where(f), key=cl + ".gate-membership|should_anonymize")
+        fpaths = []
+    for path in (fpaths if fpaths else ([] if len(m.A.paths(f).paths) > 1 and not fpaths else m.A.paths(f).paths)):
         w = where(f, path.result[2] if path.result else f.node)
         r = path.returned()
         if path.kind != "return" or path.conds:
@@ -1108,6 +1140,9 @@ def c05(ctx, rep):
     option_spec_rule(ctx, rep, "C05", only=("--preserve-addresses", "--preserve-private-addresses"))
     from .checks_misc import stage_state_rule
     stage_state_rule(ctx, rep, "C05", IP_STAGE_ROOTS)
+    from .checks_pipe import import_clauses, c12 as _c12
+    import_clauses(ctx, rep, "C05", "C01", c01, ("C01.inv.memo-",))  # undo finds the pinned (identity) entries only through the inverse memo, at every length
+    import_clauses(ctx, rep, "C05", "C12", _c12, ("C12.group-loop", "C12.line-reassembled"))  # the secret stage rewrites nothing but the secret's own position (a mask elsewhere on the line stays as written)
 
 
 def _gate_v6(m, rep, cl):
@@ -1188,11 +1223,16 @@ def c17(ctx, rep):
             for bp in write_paths:
                 if bp.conds or bp.result is not None:
                     filt_ok = False
-        elif it == items:
+        elif it == items or it in (("attr", SELF, m.CACHE), ("call", ("attr", ("attr", SELF, m.CACHE), "keys"), (), ())):
             # form B: a loop over items() whose body writes only when the key has full length
+            # form C: a loop over the memo's keys, the value read back with memo[key]
             src_ok = True
-            key_t = ("loopvar", li.uid, it, (0,))
-            val_t = ("loopvar", li.uid, it, (1,))
+            if it == items:
+                key_t = ("loopvar", li.uid, it, (0,))
+                val_t = ("loopvar", li.uid, it, (1,))
+            else:
+                key_t = ("loopvar", li.uid, it, ())
+                val_t = ("sub", ("attr", SELF, m.CACHE), key_t)
             f1, f2 = lenfilter(key_t)
             filt_ok = True
             for bp in li.body_paths:
@@ -1220,7 +1260,7 @@ def c17(ctx, rep):
                 line = wr[0].a[2][0]
                 r1 = ("call", ("attr", SELF, "_ip_to_str"), (key_t,), ())
                 r2 = ("call", ("attr", SELF, "_ip_to_str"), (val_t,), ())
-                okl = line == M.fstr(r1, "\t", r2, "\n")
+                okl = line == M.fstr(r1, "\t", r2, "\n") or M.text_parts(line) == [r1, ("const", "\t"), r2, ("const", "\n")]
                 rep.ob("C17.dump-line", fn.name, okl, "line is %s; expected '{}\\t{}\\n'.format(render(key), render(value))" % show(line), where(fn, wr[0].node), key="C17.dump-line|dump_to_file")
     # renderer: str(cls.make_addr_from_int(int(bits, 2))) — the family's own renderer
     fr = m.method(m.base, "_ip_to_str")
@@ -1272,6 +1312,14 @@ def c17(ctx, rep):
     _one_anonymizer_per_run(ctx, m, rep, "C17")  # the dumped memo must be the one every file was processed with
     _cli_defaults(ctx, rep, "C17")
     _undo_threading(ctx, m, rep, "C17")
+    # the listed pair is the pair that was used: the gate decides per address from the address alone, the text is parsed the one way, and the inverse walk records what it returns
+    _gate_content(ctx, m, rep, "C17")
+    from .checks_pipe import import_clauses
+    from . import checks_rx as _rx
+    import_clauses(ctx, rep, "C17", "C06", _rx.c06, ("C06.ipv4-drop-zeros-call", "C06.ipv6-parse-call"))
+    import_clauses(ctx, rep, "C17", "C01", c01, ("C01.inv.memo-",))
+    from .checks_misc import stage_state_rule
+    stage_state_rule(ctx, rep, "C17", IP_STAGE_ROOTS)
 
 
 def _dump_requires_ips(ctx, rep, cl):
